@@ -105,7 +105,7 @@ func (c *Ctx) addArgsSkeleton(r *Report, rule string) {
 		// range over args with a separate count of consumed tokens: both advance by one on every back edge
 		d, ok := lockstep(ctrPhi, rngPhi)
 		r.Check(ok && d == 1 && c.term(ctrPhi) == ctrT, rule, an, "one token dropped per iteration", c.ipos(ctrPhi), "the consumed count starts at 0 and advances with the range index on every back edge", "the consumed count evolves as "+c.term(ctrPhi)+" against the range index "+c.term(rngPhi))
-		tokT, restT = "idx(P1, ("+rngT+" + 1))", "slice(P1, "+ctrT+", _)"
+		tokT, restT = "idx(P1, "+ctrT+")", "slice(P1, "+ctrT+", _)"
 	case ctrPhi != nil:
 		r.Check(c.term(ctrPhi) == ctrT, rule, an, "one token dropped per iteration", c.ipos(ctrPhi), "the token index starts at 0 and every back edge carries index+1", "the token index evolves as "+c.term(ctrPhi))
 		tokT, restT = "idx(P1, "+ctrT+")", "slice(P1, "+ctrT+", _)"
